@@ -258,7 +258,10 @@ def random_bench_module(rnd, tlib):
         sigs.append(w)
     gs = [s for s in sigs if s.startswith('g')]
     outs = rnd.sample(gs, min(len(gs), rnd.randint(1, 2)))
-    return dict(name='top', ports=ports + [('output', o, None) for o in outs], insts=insts, wires=[g for g in gs if g not in outs], assigns=[])
+    allp = ports + [('output', o, None) for o in outs]
+    if rnd.random() < 0.4:
+        rnd.shuffle(allp)            # ports are declared in any order (an output before a later input)
+    return dict(name='top', ports=allp, insts=insts, wires=[g for g in gs if g not in outs], assigns=[])
 
 
 def render_bench(mod, rnd, tlib):
@@ -268,8 +271,11 @@ def render_bench(mod, rnd, tlib):
     ins = [p[1] for p in mod['ports'] if p[0] == 'input']
     outs = [p[1] for p in mod['ports'] if p[0] == 'output']
     kw = rnd.choice([('INPUT', 'OUTPUT'), ('input', 'output')])
-    lines += ['%s(%s)' % (kw[0], i) for i in ins] if rnd.random() < 0.5 else ['%s(%s)' % (kw[0], ', '.join(ins))]
-    lines += ['%s(%s)' % (kw[1], o) for o in outs]
+    if [p[0] for p in mod['ports']] != ['input'] * len(ins) + ['output'] * len(outs):
+        lines += ['%s(%s)' % (kw[0] if p[0] == 'input' else kw[1], p[1]) for p in mod['ports']]        # interleaved: the port order is the declaration order
+    else:
+        lines += ['%s(%s)' % (kw[0], i) for i in ins] if rnd.random() < 0.5 else ['%s(%s)' % (kw[0], ', '.join(ins))]
+        lines += ['%s(%s)' % (kw[1], o) for o in outs]
     gl = []
     for kind, iname, pm in mod['insts']:
         pins = tlib.cells[kind][1]
